@@ -65,7 +65,7 @@ theorem State.withHeap_trans {a b c : State} (h1 : b = { a with heap := b.heap }
 theorem State.withHeap_err {a b : State} (h : b = { a with heap := b.heap }) : b.err = a.err := by
   rw [h]
 
-theorem State.cell_of_get {s : State} {k : Nat} {ob : Obj} (hg : s.heap[k]? = some ob)
+theorem State.cs_cell_of_get {s : State} {k : Nat} {ob : Obj} (hg : s.heap[k]? = some ob)
     (hf : ob.freed = false) : s.cell k = some ob := by
   simp [State.cell, hg, hf]
 
@@ -97,7 +97,7 @@ theorem State.phase1One_ready (keys : List Nat) (s : State) (k n : Nat) (ob : Ob
     (st : Nat) (hg : s.heap[k]? = some ob) (hf : ob.freed = false) (hl : ob.links = some t)
     (hs : ob.strong = .cnt st) (hle : st ≤ n) :
     State.phase1One keys s (k, n) = s.setObj k (p1Obj keys ob) := by
-  have hc := State.cell_of_get hg hf
+  have hc := State.cs_cell_of_get hg hf
   unfold State.phase1One
   simp only [hc, hl, hs]
   have h0 : st - min n st = 0 := by rw [Nat.min_eq_right hle]; exact Nat.sub_self _
@@ -178,7 +178,7 @@ theorem State.phase2One_ready (acc : State × List Val) (k : Nat) (ob : Obj) (v 
     (hg : acc.1.heap[k]? = some ob) (hf : ob.freed = false) (hs : ob.strong = .cnt 0)
     (hv : ob.value = some v) :
     State.phase2One acc k = (acc.1.setObj k (p2Obj ob), acc.2 ++ [v]) := by
-  have hc := State.cell_of_get hg hf
+  have hc := State.cs_cell_of_get hg hf
   unfold State.phase2One
   simp only [hc, hs, hv]
   rfl
@@ -325,7 +325,7 @@ theorem reorder_perm (hint : List Nat) (vs : List Val) : (reorder hint vs).Perm 
       · exact ih vs
     · exact ih vs
 
-theorem sumList_perm {l l' : List Nat} (h : l.Perm l') : State.sumList l = State.sumList l' := by
+theorem cs_sumList_perm {l l' : List Nat} (h : l.Perm l') : State.sumList l = State.sumList l' := by
   induction h with
   | nil => rfl
   | cons x _ ih => simp only [State.sumList, List.foldr_cons] at ih ⊢; rw [ih]
@@ -334,7 +334,7 @@ theorem sumList_perm {l l' : List Nat} (h : l.Perm l') : State.sumList l = State
 
 theorem sumList_reorder (hint : List Nat) (vs : List Val) (f : Val → Nat) :
     State.sumList ((reorder hint vs).map f) = State.sumList (vs.map f) :=
-  sumList_perm ((reorder_perm hint vs).map f)
+  cs_sumList_perm ((reorder_perm hint vs).map f)
 
 theorem reorder_length (hint : List Nat) (vs : List Val) : (reorder hint vs).length = vs.length :=
   (reorder_perm hint vs).length_eq
